@@ -280,6 +280,8 @@ def items(tier, repo=None):
         yield it
     for it in literal_matrix_items(tier):
         yield it
+    for it in qualifier_items():
+        yield it
     if tier == 'thorough':
         # pairs of deviations on the small bases
         for bi, text in enumerate(SMALL_BASES):
@@ -359,15 +361,15 @@ def clash_items():
 MATRIX_TYPES = ['Int32', 'UInt64', 'Int64(min_value=0)', 'Float32', 'Float64', 'Float64(min_value=0, max_value=1)', 'String', 'String(min_length=2, max_length=3)',
                 'String(pattern="[a-c]+")', 'Bytes', 'Boolean', 'Timestamp("%Y")', 'List(Int32)', 'List(String, min_items=1, max_items=2)', 'Map(String, Int32)',
                 'Map(String(min_length=2), List(Int32))', 'Ms', 'Mu', 'Mtree', 'Int32?', 'Ms?', 'List(Ms)', 'List(Int32?)', 'Aint', 'Anull', 'Alist', 'Astruct', 'AnullS', 'Void']
-MATRIX_LITERALS = ['0', '-1', '5', '1' + '0' * 400, '-1' + '0' * 400, '1.5', '-0.0', '1e400', '1e-400', '2e10', '""', '"x"', '"ab"', '"YWJj"', '"2000"', '"not a date"',
+MATRIX_LITERALS = ['0', '-1', '5', '1' + '0' * 400, '-1' + '0' * 400, '1' * 4300, '1' * 4301, '-' + '1' * 4301, '1' * 5000 + '.5', '1e' + '9' * 5000, '1.5', '-0.0', '1e400', '1e-400', '2e10', '""', '"x"', '"ab"', '"YWJj"', '"2000"', '"not a date"',
                    'true', 'false', 'null', '[]', '[1]', '["a"]', '[[1]]', '[null]', '[1, "a"]', '{}', '{"ab": 1}', '{"a": 1}', '{"ab": [1]}', '{1: 2}', '{"ab": null}',
-                   'mv', 'nope', 'default', 'Ms', 'Int32']
-MATRIX_PREAMBLE = ('namespace mx\n\nstruct Ms\n    a Int32\n    b String = "d"\n\n    example default\n        a = 1\n\nunion Mu\n    mv\n    mw Int32\n\n    example default\n        mw = 3\n\n'
+                   'mv', 'mw', 'ms', 'mn', 'mu', 'nope', 'default', 'Ms', 'Int32']
+MATRIX_PREAMBLE = ('namespace mx\n\nstruct Ms\n    a Int32\n    b String = "d"\n\n    example default\n        a = 1\n\nunion Mu\n    mv\n    mw Int32\n    ms Ms\n    mn Ms?\n    mu Mu2\n\n    example default\n        mw = 3\n\n'
                    'struct Mtree\n    union\n        leaf Mleaf\n    t Int32\n\n    example default\n        leaf = default\n\nstruct Mleaf extends Mtree\n    l Int32\n\n    example default\n        t = 1\n        l = 2\n\n'
-                   'alias Aint = Int32\nalias Anull = Int32?\nalias Alist = List(Int32)\nalias Astruct = Ms\nalias AnullS = Ms?\n\n')
+                   'union Mu2\n    m2v\n\nalias Aint = Int32\nalias Anull = Int32?\nalias Alist = List(Int32)\nalias Astruct = Ms\nalias AnullS = Ms?\n\n')
 BAD_PATTERNS = ['a{99999999999}', '(', ')', '[', '*', '+a', 'a**', '(?P<x>a)(?P<x>b)', '\\\\', 'a{2,1}', '(?i', '\\\\1', '(?P=nope)', '[z-a]', '(?<=a+)b', '\\\\p{L}', '(?#', 'a{,}', '\\\\N{nope}',
                 '(' * 120 + 'a' + ')' * 120, '(?:' * 300 + 'a' + ')' * 300, '(a*)*b', '\\\\x', '\\\\u12', '[[:alpha:]]', '(?a)(?u)x', '(?L)x', '']
-HUGE = ['1' + '0' * 400, '-1' + '0' * 400, '1e400', '-1e400', '1e-400', '0', '-1', '1.5', '"3"', 'true', 'null']
+HUGE = ['1' + '0' * 400, '-1' + '0' * 400, '1' * 4300, '1' * 4301, '-' + '1' * 4301, '1' * 5000 + '.5', '1e400', '-1e400', '1e-400', '0', '-1', '1.5', '"3"', 'true', 'null']
 
 
 def literal_matrix_items(tier):
@@ -419,6 +421,33 @@ def literal_matrix_items(tier):
         names = ['c%d' % i for i in range(n)]
         yield 'matrix:import-cycle:%d' % n, [('%s.stone' % nm, 'namespace %s\n\nimport %s\n\nstruct X%d\n    f %s.X%d?\n' % (nm, names[(i + 1) % n], i, names[(i + 1) % n], (i + 1) % n)) for i, nm in enumerate(names)]
         yield 'matrix:import-cycle-unused:%d' % n, [('%s.stone' % nm, 'namespace %s\n\nimport %s\n\nstruct X%d\n    f Int32\n' % (nm, names[(i + 1) % n], i)) for i, nm in enumerate(names)]
+
+
+# ---------------------------------------------------------------------------
+# namespace qualifiers: every kind of reference site x every kind of qualifier x {name that exists there, annotation type, unknown name}
+
+QUAL_OTHER = 'namespace qo\n\nstruct T\n    x Int32\n\nunion Uq\n    a\n\nalias Al = T\n\nannotation_type At\n    p Int32\n\nannotation An = At(p=1)\n\nroute rq(T, Void, Void)\n'
+QUAL_THIRD = 'namespace qt\n\nstruct T\n    x Int32\n\nannotation_type At\n    p Int32\n'
+QUALIFIERS = ['qn', 'qo', 'qt', 'zz', 'Loc', 'LocAl', 'stone_cfg', 'An', 'rloc']
+QUAL_NAMES = ['T', 'Uq', 'Al', 'At', 'An', 'rq', 'Loc', 'Nope']
+QUAL_SITES = [('field', 'struct H\n    f %s\n'), ('field-nullable', 'struct H\n    f %s?\n'), ('list-item', 'struct H\n    f List(%s)\n'), ('parent', 'struct H extends %s\n    f Int32\n'),
+              ('union-parent', 'union H extends %s\n    hh\n'), ('alias', 'alias H = %s\n'), ('route-arg', 'route h(%s, Void, Void)\n'), ('route-error', 'route h(Void, Void, %s)\n'),
+              ('deprecated-by', 'route h(Void, Void, Void) deprecated by %s\n'), ('annotation-type', 'annotation Hh = %s(p=1)\n'), ('annotation-type-noargs', 'annotation Hh = %s()\n'),
+              ('annotation-use', 'struct H\n    f Int32\n        @%s\n'), ('subtype', 'struct H\n    union\n        s %s\n    f Int32\n'), ('patch', 'patch struct %s\n    zz Int32?\n'),
+              ('tag', 'union H\n    t %s\n'), ('param-type', 'annotation_type Hh\n    p %s\n'), ('import', 'import %s\n')]
+
+
+def qualifier_items():
+    local = 'struct Loc\n    y Int32\n\nalias LocAl = Loc\n\nannotation_type At\n    p Int32\n\nannotation An = At(p=2)\n\nroute rloc(Void, Void, Void)\n\n'
+    for site, pat in QUAL_SITES:
+        for q in QUALIFIERS:
+            for name in QUAL_NAMES:
+                ref = '%s.%s' % (q, name) if site != 'import' else q
+                if site == 'import' and name != 'T':
+                    continue
+                for imports in ('import qo\n\n', ''):
+                    text = 'namespace qn\n\n' + imports + local + pat % ref
+                    yield 'qualifier:%s:%s:%s' % (site, ref, 'imported' if imports else 'not-imported'), [('qo.stone', QUAL_OTHER), ('qt.stone', QUAL_THIRD), ('qn.stone', text)]
 
 
 POOL_LABELS = None
